@@ -39,7 +39,7 @@ DESCRIPTION = {
     ),
     "real_code": ["sqllineage/core/holders.py (StatementLineageHolder, SQLLineageHolder._build_digraph, role predicates)",
                   "sqllineage/runner.py + sqlfluff analyzer (SQL path)", "networkx"],
-    "stubs": ["none at holder level; SQL path uses the guarded statement tap of /repo to read per-statement facts"],
+    "stubs": ["none at holder level; SQL path uses the guarded statement tap of /repo to read per-statement facts", "thread scheduling (baton) in the shared-runner world"],
     "assumptions": [
         "the model is partial by design: RENAME outside the determined zone (single/multi pair, source present, wired, no self-loop, not tagged source-only/target-only, fresh target name) only requires the old name to be gone, and the rest of that history is checked for weak invariants only",
         "DROP of a table that was never read and never wired may or may not remove it (the statement says 'only if')",
@@ -48,7 +48,7 @@ DESCRIPTION = {
     ],
     "required_probes": {
         "quick": ["drop_after_wiring", "drop_removed", "rename_determined", "rename_loose", "selfloop", "recreate_after_drop",
-                  "reorder_checked", "duplicate_checked", "multi_pair_rename", "sql_path"],
+                  "reorder_checked", "duplicate_checked", "multi_pair_rename", "sql_path", "shared_runner_threads"],
         "thorough": ["drop_after_wiring", "drop_removed", "rename_determined", "rename_loose", "selfloop", "recreate_after_drop",
                      "reorder_checked", "duplicate_checked", "multi_pair_rename", "sql_path"],
     },
@@ -470,7 +470,62 @@ def check_history_sql(spec) -> dict:
         model.states = match
         for s in match:
             states.add(short(s.roles(), 12))
+    # one runner object shared by two caller threads whose first accesses race (schedules!): every answer either
+    # thread gets must still be the one the statement determines
+    if viol is None and not model.loose and spec.get("shared_runner") and len(model.states) == 1 and len(stmts) >= 2:
+        sv = shared_runner_world(spec, stmts, dialect, model.states[0].roles())
+        model.probe("shared_runner_threads")
+        if sv:
+            viol = sv
     return _result(spec, model, viol, states, extra={"sql_statements": len(stmts)})
+
+
+def shared_runner_world(spec, stmts, dialect, want):
+    import hashlib
+
+    import sqllineage.runner as runner_mod
+    from sqllineage.runner import LineageRunner
+
+    from ..sched import LineTracer, Scheduler, current, make_chooser
+
+    g = stream(spec["seed"], "shared")
+    runner = LineageRunner(";\n".join(stmts), dialect=dialect)
+    sched = Scheduler(make_chooser(g.choice(["retbias", "random", "pct2", "sticky50"]), stream(spec["seed"], "shared-sched"), horizon=400), max_steps=400_000, hang_s=100.0)
+    got = {}
+    progs = [[g.choice(["statements", "roles", "roles", "cyto"]) for _ in range(g.choice([1, 2, 3]))] for _ in range(2)]
+
+    def mk(i):
+        def body():
+            outs = []
+            for a in progs[i]:
+                sched.yield_point("op", a)
+                try:
+                    if a == "statements":
+                        outs.append(("statements", len(runner.statements())))
+                    else:
+                        outs.append(("roles", observe_runner(runner)))
+                except Exception as e:
+                    outs.append(("exception", type(e).__name__))
+            got[i] = outs
+        return body
+
+    for i in range(2):
+        sched.spawn(f"caller{i}", mk(i))
+    tracer = LineTracer(sched, [runner_mod], granularity=g.choice(["line", "line", "instr"]))
+    tracer.install()
+    try:
+        sched.run()
+    finally:
+        tracer.uninstall()
+    for i in range(2):
+        for kind, val in got.get(i, []):
+            if kind == "exception":
+                return {"class": "shared_runner_mismatch", "message": f"script {stmts} ({dialect}) on one runner shared by two threads: an accessor raised {val}", "at": len(stmts)}
+            if kind == "statements" and val != len(stmts):
+                return {"class": "shared_runner_mismatch", "message": f"script {stmts} ({dialect}) on one runner shared by two threads: statements() returned {val} statements, the script has {len(stmts)}", "at": len(stmts)}
+            if kind == "roles" and val != want:
+                return {"class": "shared_runner_mismatch", "message": f"script {stmts} ({dialect}) on one runner shared by two threads whose first accesses overlapped: observed {val}; a single caller gets {want}", "at": len(stmts)}
+    return None
 
 
 def run_one(spec):
@@ -536,7 +591,8 @@ def gen(seed, path="holder") -> dict:
             touched.extend(R)
             if w:
                 touched.append(w)
-    return {"seed": seed, "path": path, "ops": ops, "universe": sorted(set(universe) | {"e", "f"}), "share_holders": g.random() < 0.4}
+    return {"seed": seed, "path": path, "ops": ops, "universe": sorted(set(universe) | {"e", "f"}), "share_holders": g.random() < 0.4,
+            "shared_runner": g.random() < 0.35}
 
 
 def plan(seed: int, tier: str) -> list[dict]:
